@@ -4,6 +4,8 @@ import (
 	"fmt"
 	"sort"
 	"strings"
+
+	metav1 "k8s.io/apimachinery/pkg/apis/meta/v1"
 )
 
 // C09 (partial: txt and md of the list report, with and without exposure): the rendered text is exactly the
@@ -68,7 +70,7 @@ func zzExposureRows(conns []Peer2PeerConnection, exposed []ExposedPeer) (eg, in 
 				for _, d := range data {
 					rep := "entire-cluster"
 					if !d.IsExposedToEntireCluster() {
-						rep = getRepresentativeNamespaceString(d.NamespaceLabels(), true) + "/" + getRepresentativePodString(d.PodLabels(), true)
+						rep = zzRepNs(d.NamespaceLabels()) + "/" + zzRepPod(d.PodLabels())
 					}
 					rows = append(rows, mk(rep, GetConnectionSetFromP2PConnection(NewPeer2PeerConnection(nil, nil, d.PotentialConnectivity().IsAllConnections(), d.PotentialConnectivity().ProtocolsAndPortsMap())).String()))
 				}
@@ -87,6 +89,47 @@ func zzExposureRows(conns []Peer2PeerConnection, exposed []ExposedPeer) (eg, in 
 		}
 	}
 	return eg, in, unprotected
+}
+
+// reference rendering of the selectors of a representative peer, written from the layout of the txt/md formats and
+// independent of the formatter's helpers: labels as k=v sorted by key, then the expressions in the generated
+// text form of a LabelSelectorRequirement without its type name, sorted; the bare namespace name only for a selector
+// that consists of the namespace-name label alone
+func zzRepSelText(sel metav1.LabelSelector) string {
+	var parts []string
+	var keys []string
+	for k := range sel.MatchLabels {
+		keys = append(keys, k)
+	}
+	sort.Strings(keys)
+	for _, k := range keys {
+		parts = append(parts, k+"="+sel.MatchLabels[k])
+	}
+	var reqs []string
+	for _, r := range sel.MatchExpressions {
+		reqs = append(reqs, "{Key:"+r.Key+",Operator:"+string(r.Operator)+",Values:["+strings.Join(r.Values, " ")+"],}")
+	}
+	sort.Strings(reqs)
+	return strings.Join(append(parts, reqs...), ",")
+}
+
+func zzRepNs(sel metav1.LabelSelector) string {
+	if len(sel.MatchExpressions) == 0 && len(sel.MatchLabels) == 1 {
+		if name, ok := sel.MatchLabels[zzNsNameLabel]; ok {
+			return name
+		}
+	}
+	if len(sel.MatchExpressions) == 0 && len(sel.MatchLabels) == 0 {
+		return "[all namespaces]"
+	}
+	return "[namespace with {" + zzRepSelText(sel) + "}]"
+}
+
+func zzRepPod(sel metav1.LabelSelector) string {
+	if len(sel.MatchExpressions) == 0 && len(sel.MatchLabels) == 0 {
+		return "[all pods]"
+	}
+	return "[pod with {" + zzRepSelText(sel) + "}]"
 }
 
 func zzSection(lines []string, header string) string {
